@@ -459,10 +459,11 @@ func BVBin(op string, a, b *Term) *Term {
 	isOnes := func(t *Term) bool { return t.IsConst() && t.Val.Cmp(mask(w)) == 0 }
 	switch op {
 	case "bvadd", "bvor", "bvxor":
-		if isZero(ua) {
+		// a marked zero (index 0 of a slice) is kept: it is an instantiation candidate
+		if isZero(ua) && a.Op != "mark" {
 			return b
 		}
-		if isZero(ub) {
+		if isZero(ub) && b.Op != "mark" {
 			return a
 		}
 	case "bvsub", "bvshl", "bvlshr", "bvashr":
